@@ -130,7 +130,10 @@ async fn open(kind: Kind) -> std::io::Result<(Rd, Wr)> {
             let l = compio_net::TcpListener::bind("127.0.0.1:0").await?;
             let addr = l.local_addr()?;
             let (c, a) = futures_util::join!(compio_net::TcpStream::connect(addr), l.accept());
-            (Rd::Tcp(a?.0), Wr::Tcp(c?))
+            let (a, c) = (a?.0, c?);
+            no_time_wait(&a);
+            no_time_wait(&c);
+            (Rd::Tcp(a), Wr::Tcp(c))
         }
     })
 }
@@ -291,6 +294,10 @@ fn streams() -> RunResult {
                 for (ci, c) in chans.iter().cloned().enumerate() {
                     let (mut rd, mut wr) = match open(c.kind).await {
                         Ok(p) => p,
+                        Err(e) if out_of_ports(&e) => {
+                            sim::probe("tcp-ports-exhausted");
+                            continue;
+                        }
                         Err(e) => {
                             errs.push("io-error", format!("opening a {:?} channel failed: {e}", c.kind));
                             return;
